@@ -1,28 +1,42 @@
 /-
 C09 — formatting is idempotent and preserves the program.
-PROPERTY THEOREMS ONLY (lemmas: Proofs/Format.lean; model: Martian/Format.lean).
+PROPERTY THEOREMS ONLY.  Models: Martian/Format.lean (quoteString, topoSort),
+Martian/FormatExp.lean (value expressions, tokenizer, reader), FormatExpText.lean
+(accepted texts), FormatCall.lean / FormatCall2.lean (call statements, return,
+retain, pipeline bodies), FormatDecl.lean (types, parameter lists, struct,
+filetype), FormatRes.lean (src line, resources incl. formatGB, stage retain),
+FormatStage.lean, FormatPipe.lean, FormatFile.lean.  Lemmas: Proofs/Format*.lean.
 
-Proved for all inputs: the call reordering (`topoSort`) is a permutation; the
-until-nothing-changes loop of `addNextDeps` (`closedTable`) ends in a fixed
-point of its round within its fuel, and the closed relation is therefore
-transitive on the calls, for every graph (`closedDeps_transitive`); under the
-single (decidable) hypothesis "closed relation is acyclic" (otherwise the Go
-code returns an error) the result of `topoSort` is in dependency order and a
-fixed point of the loop; the loop is the identity on any dependency order; and
-the string printer/lexer round trip `unquoteBytes (quoteString s) = some s`
-for every valid UTF-8 `s`.
-Value expressions (section ValueExpressions, model Martian/FormatExp.lean): for
-every well-formed expression the reader accepts the printed text and returns
-the expression up to `norm` (`parse_format_exp`), printing the result gives
-the same text (`format_exp_idem`), and the normal form is stable
-(`norm_stable`).  The keyword table and the `id` production the tokenizer
-model uses are re-read from the source (`keyword_table_current`,
-`id_tokens_current`).  Call statements without modifiers (section CallStatements,
-model Martian/FormatCall.lean): `parse_format_call`, `format_call_idem`.
-(That the model's closed table is the map the Go loop builds, that `fmt` is
-`FormatExp` and `parseValExp` is `ParseValExp` is tied by correspondence on
-generated inputs, every run.)  Not proved: comments, declaration layout beyond
-call statements, include expansion (monitors only); strconv's float printing/parsing (trusted).
+Sections (each: round trip `parse (format x) = some (norm x)` for every
+well-formed x of the modelled AST, idempotence `format (norm x) = format x`,
+stability of the normal form, lexing statement, non-vacuity examples by
+`decide +kernel`, negative witnesses):
+  (top)               quote/unquote of strings; topoSort (permutation; closure is
+                      a fixed point and transitive for every graph; dependency
+                      order and idempotence with the only hypothesis "no cycle");
+                      regenerated keyword table / id production (fail closed)
+  ValueExpressions    parse_format_exp, format_exp_idem, …          (from an AST)
+  CallStatements      calls without modifiers
+  Declarations        types, parameter lists, struct, filetype
+  StageClauses        formatGB_roundtrip, resources, retain, src line
+  PipelineStatements  full call statements, return, retain, bodies
+  StageDeclarations   parse_format_stage
+  PipelineDeclarations parse_format_pipeline, format_pipeline_idem (incl. the
+                      reordering of calls: closedDeps_least, relabelling)
+  WholeFile           parse_format_file, parse_source_any_order,
+                      format_preserves_program (comment-free files)
+  AcceptedTexts       from an ACCEPTED SOURCE TEXT (value expressions): the range
+                      of lexer and reader, parse_produces_wf_partial,
+                      format_preserves_accepted_exp_partial (the two hypotheses
+                      are the recorded findings F6b and F26)
+All other sections start from an AST satisfying the stated `wf…` predicate
+(print → read → print); for declaration-level SOURCE texts in non-canonical
+spelling the step text → AST is tied by correspondence only.
+Not proved: comments, include expansion (monitors only); strconv float
+printing/parsing (abstract: texts / `GOK`); the goyacc automaton (the readers
+are recursive-descent models tied by correspondence on generated, respelled
+and near-miss texts).  Theorems below a header `definitional unfoldings` are
+documentation of the model, not guarantees.
 -/
 import Martian.Format
 import Proofs.Format
@@ -34,6 +48,18 @@ import Proofs.FormatExpLex
 import Martian.FormatExp
 import Gen.Facts
 import Proofs.FormatCallLex
+import Proofs.FormatDeclLex
+
+import Proofs.FormatResLex
+import Proofs.FormatStageLex
+
+import Proofs.FormatCall2Lex
+
+
+
+import Proofs.FormatPipeParse
+import Proofs.FormatFileLex
+import Proofs.FormatExpRangeText
 
 namespace Props.C09
 open Martian.Format
@@ -46,7 +72,9 @@ theorem topoSort_perm (n : Nat) (edges : List (Nat × Nat)) :
 
 /-- The shift loop leaves an order alone in which no call depends on a later
 one — for every dependency relation and every fuel: a formatted pipeline is a
-fixed point of the reordering (stability). -/
+fixed point of the reordering.  (This is "identity on sorted input", NOT the
+stability the Go comment speaks of — the relative order of independent calls
+being preserved when something does move — for which there is no theorem.) -/
 theorem topoSort_stable (d : Dep) (f : Nat) (l : List Nat) (h : sortedFrom d l = true) :
     loop d f l 0 = l :=
   loop_sorted d f l 0 (by simpa using h)
@@ -157,8 +185,10 @@ U+FFFD. -/
 theorem invalid_byte_not_preserved :
     Martian.Lexer.unquoteBytes (quoteString [0xFF]) = some [0xEF, 0xBF, 0xBD] := by decide
 
-/-- Negative witness F6: written between bare quotes (as `src` commands and
-include paths were), `a"b` is not even a string token; quoted it is. -/
+/-- Historical negative witness F6 (the code it is about is gone: `SrcParam.format`
+and the `@include` lines call `quoteString` since the repair): written between
+bare quotes, as `src` commands and include paths were, `a"b` is not even a
+string token; quoted it is. -/
 theorem raw_emission_breaks :
     Martian.Lexer.matchString (emitRaw [0x61, 0x22, 0x62] ++ [0x2C]) = some [0x22, 0x61, 0x22] ∧
     Martian.Lexer.matchString (quoteString [0x61, 0x22, 0x62] ++ [0x2C]) = some (quoteString [0x61, 0x22, 0x62]) := by
@@ -166,12 +196,16 @@ theorem raw_emission_breaks :
 
 /-- the keyword table the tokenizer model uses is the one in tokenizer.go now:
 `Gen.tokKeywords` is re-read on every run from the `bytesPrefixString(b, X)` calls
-of `keywordToken` (text, token constant; source order; without `@include`) -/
-theorem keyword_table_current : Gen.tokKeywords = Martian.FormatExp.keywordTable := by decide
+of `keywordToken` (text, token constant; source order; without `@include`).  The first conjunct makes
+the obligation fail when the extractor no longer finds the pattern (it would otherwise fall back to
+the committed default, which is this very table): a new keyword is detected by this fact only. -/
+theorem keyword_table_current :
+    Gen.tokKeywords_extracted = true ∧ Gen.tokKeywords = Martian.FormatExp.keywordTable := by decide
 
 /-- … and the tokens the grammar's `id` production accepts besides `ID` are the
 alternatives of that production in grammar.y now (`Gen.idTokens`, source order) -/
-theorem id_tokens_current : Gen.idTokens = Martian.FormatExp.idTokens := by decide
+theorem id_tokens_current :
+    Gen.idTokens_extracted = true ∧ Gen.idTokens = Martian.FormatExp.idTokens := by decide
 
 
 /-! ## value expressions: printer / reader round trip
@@ -193,6 +227,11 @@ accepts the printed text and returns the expression up to the normalisations
 `norm` (a nil array prints as `null`; an integral float prints without `.`/`e`
 and reads back as an int; an empty struct literal reads back as an empty map). -/
 theorem parse_format_exp (e : Exp) (hw : wf e = true) (hv : isVal e = true) :
+    -- (starts from an AST: `wf` excludes two things the PARSER can produce - a string that is
+    -- not valid UTF-8 (F6b, `invalid_byte_not_preserved`) and the float `-0` (F26,
+    -- `negative_zero_not_wf`); the statement for accepted source TEXTS, with exactly these two
+    -- exceptions as hypotheses, is `format_preserves_accepted_exp_partial` in section AcceptedTexts;
+    -- the name is kept without `_partial` because other properties build on it)
     parseValExp (fmt [] e) = some (norm e) := by
   simp only [parseValExp, lexAll_fmt_top e hw, Option.bind_some]
   exact parseToks_toks e hw hv
@@ -357,5 +396,1144 @@ theorem split_near_misses :
       .int [0x31], .punct 0x2C, .punct 0x29]).isNone = true := by decide +kernel
 
 end CallStatements
+
+/-! ## type names, parameter lists, `struct` and `filetype` declarations
+
+Model: `Martian.FormatDecl` (`fmtParam mw tw iw hw` = `paramFormat` for ARBITRARY
+column widths, `widths` = `getWidths`, `maxWidths` = `measureParamsWidths`,
+`fmtStruct` = `StructType.format`, `fmtFiletype` = `UserType.format`; readers
+`pType`, `pInParams`, `pOutParams`, `pMembers`, `parseStruct`, `parseFiletype`,
+`parseParams` for the grammar's `type_id`, `in_param_list`, `out_param_list`,
+`struct_field_list`, `struct`, `dec: FILETYPE id_list ';'`; `wfParam`,
+`wfMember`, `wfStruct`, `wfFiletype` = the values the parser can produce).  No
+normal form is needed: the AST is preserved exactly.  Tied on every run
+(harness/c09decl.go): `fmtStruct`/`fmtFiletype` vs `FormatSrcBytes` byte for
+byte, `parseStruct`/`parseFiletype` vs `Parser.UncheckedParse`, parameter blocks
+inside a minimal stage (printer, `widths`, reader), respelled and near-miss texts. -/
+section Declarations
+open Martian.FormatExp Martian.FormatDecl
+
+/-- **Round trip, `struct`.**  For EVERY well-formed struct declaration (any
+number ≥ 1 of members; builtin, user-defined and dotted type names, arrays,
+typed maps `map<T[]>[]`; ids of any length incl. id-like keywords; help texts and
+out names with any valid UTF-8 content, empty help with an out name), the reader
+accepts the printed text and returns exactly the declaration. -/
+theorem parse_format_struct (s : Struct) (hw : wfStruct s = true) :
+    parseStruct (fmtStruct s) = some s :=
+  parseStruct_fmtStruct s hw
+
+/-- **Round trip, `filetype`.** -/
+theorem parse_format_filetype (t : Filetype) (hw : wfFiletype t = true) :
+    parseFiletype (fmtFiletype t) = some t :=
+  parseFiletype_fmtFiletype t hw
+
+/-- **Round trip, parameter block.**  Input parameters followed by output
+parameters, printed with ANY column widths (whatever lists `measureParamsWidths`
+was run over), read back by `in_param_list out_param_list` as exactly the same
+parameters: named and unnamed (`default`) outputs, help present or absent, an out
+name with or without help text (the `""` placeholder). -/
+theorem parse_format_params (mw tw iw hw : Nat) (ins outs : List Param)
+    (hwi : ins.all Martian.FormatDecl.wfParam = true) (hwo : outs.all Martian.FormatDecl.wfParam = true)
+    (hi : ins.all (fun p => !p.out) = true) (ho : outs.all (fun p => p.out) = true) :
+    parseParams (fmtParams mw tw iw hw (ins ++ outs)) = some (ins ++ outs) :=
+  parseParams_fmtParams mw tw iw hw ins outs hwi hwo hi ho
+
+/-- **Idempotent.**  Read-then-print of a printed declaration gives the same
+text (the reader returns the declaration itself). -/
+theorem format_struct_idem (s : Struct) (hw : wfStruct s = true) :
+    (parseStruct (fmtStruct s)).map fmtStruct = some (fmtStruct s) := by
+  rw [parse_format_struct s hw]; rfl
+
+theorem format_params_idem (mw tw iw hw : Nat) (ins outs : List Param)
+    (hwi : ins.all Martian.FormatDecl.wfParam = true) (hwo : outs.all Martian.FormatDecl.wfParam = true)
+    (hi : ins.all (fun p => !p.out) = true) (ho : outs.all (fun p => p.out) = true) :
+    (parseParams (fmtParams mw tw iw hw (ins ++ outs))).map (fmtParams mw tw iw hw) =
+      some (fmtParams mw tw iw hw (ins ++ outs)) := by
+  rw [parse_format_params mw tw iw hw ins outs hwi hwo hi ho]; rfl
+
+/-- the lexer sees exactly the intended tokens of a parameter list, in any
+context: any widths, any following text (which is lexed on its own) -/
+theorem lex_format_params (mw tw iw hw : Nat) (ps : List Param) (h : ps.all Martian.FormatDecl.wfParam = true)
+    (rest : List UInt8) :
+    lexAll (fmtParams mw tw iw hw ps ++ rest) = (lexAll rest).map (toksParams ps ++ ·) :=
+  lexOK_fmtParams mw tw iw hw ps h rest trivial
+
+/-- … and of a type name followed by the end of the input or a byte that is not a word character -/
+theorem lex_format_type (t : TypeId) (h : wfType t = true) (rest : List UInt8) (hr : WordEnd rest) :
+    lexAll (fmtType t ++ rest) = (lexAll rest).map (toksType t ++ ·) :=
+  lexOK_fmtType t h rest hr
+
+/-- the readers of the two halves of a parameter block, in any context: any
+following tokens that do not start with IN (resp. OUT), any fuel above the
+number of tokens of the list -/
+theorem read_in_params (ps : List Param) (f : Nat) (rest : List Tok) (hw : ps.all Martian.FormatDecl.wfParam = true)
+    (hm : ps.all (fun p => !p.out) = true) (hf : (toksParams ps).length < f)
+    (hr : headKw sIn rest = false) : pInParams f (toksParams ps ++ rest) = some (ps, rest) :=
+  pInParams_toks ps f rest hw hm hf hr
+
+theorem read_out_params (ps : List Param) (f : Nat) (rest : List Tok) (hw : ps.all Martian.FormatDecl.wfParam = true)
+    (hm : ps.all (fun p => p.out) = true) (hf : (toksParams ps).length < f)
+    (hr : headKw sOut rest = false) : pOutParams f (toksParams ps ++ rest) = some (ps, rest) :=
+  pOutParams_toks ps f rest hw hm hf hr
+
+/-! ### definitional unfoldings (documentation of the model, not guarantees) -/
+/-- `TypeId.strlen` is the length of what `TypeId.writeTo` prints -/
+theorem typeLen_is_length (t : TypeId) : typeLen t = (fmtType t).length := typeLen_eq t
+
+/-! ### guarantees (continued) -/
+/-! ### definitional unfoldings (documentation of the model, not guarantees) -/
+/-- `measureParamsWidths` over several lists is `getWidths` of their concatenation,
+and the type column is wide enough for every parameter measured -/
+theorem measure_is_widths (pss : List (List Param)) :
+    maxWidths (pss.map widths) = widths pss.flatten ∧
+    ∀ p ∈ pss.flatten, typeLen p.type ≤ (widths pss.flatten).2.1 :=
+  ⟨maxWidths_widths pss, fun p hp => typeLen_le_widths _ p hp⟩
+
+/-! ### guarantees (continued) -/
+/-- non-vacuity: a well-formed struct with a typed map of arrays of a dotted user
+type, a builtin, `map[]`, an id-like keyword as id and as type, help with an
+escape, an out name without help, a 40-byte id; the reader returns it from its
+tokens; its column widths are plain maxima (40: no cut-off) -/
+example :
+    let s : Struct := ⟨[0x53],
+      [⟨⟨[[0x6A, 0x73, 0x6F, 0x6E], [0x67, 0x7A]], 1, 2⟩, [0x61], [0x68, 0x22, 0x0A], [0x6F]⟩,
+       ⟨⟨[sInt], 3, 0⟩, sStruct, [], [0x6F, 0x6E]⟩,
+       ⟨⟨[sMap], 1, 0⟩, List.replicate 40 0x71, [], []⟩,
+       ⟨⟨[sFiletype], 0, 1⟩, [0x5F, 0x78], [0xC3, 0xA9], []⟩]⟩
+    wfStruct s = true ∧ parseStructToks (toksStruct s) = some s ∧
+      structWidths s.members = (16, 40, 3) := by decide +kernel
+
+/-- non-vacuity: a well-formed parameter block — inputs with and without help,
+an unnamed output, an unnamed output with help and out name, an unnamed output
+with an out name only, a named output with an out name only, ids of 34 and 35
+bytes and help texts of 24 and 25 bytes (the cut-offs of `widths`) -/
+example :
+    let ins : List Param :=
+      [⟨⟨⟨[sInt], 0, 0⟩, [0x61], [], []⟩, false⟩,
+       ⟨⟨⟨[[0x62, 0x61, 0x6D]], 2, 0⟩, List.replicate 34 0x62, List.replicate 24 0x68, []⟩, false⟩,
+       ⟨⟨⟨[sPath], 0, 3⟩, List.replicate 35 0x63, List.replicate 25 0x68, []⟩, false⟩]
+    let outs : List Param :=
+      [⟨⟨⟨[sInt], 0, 0⟩, sDefault, [], []⟩, true⟩,
+       ⟨⟨⟨[sFloat], 1, 0⟩, sDefault, [0x68], [0x6F]⟩, true⟩,
+       ⟨⟨⟨[sBool], 0, 0⟩, sDefault, [], [0x6F]⟩, true⟩,
+       ⟨⟨⟨[sString], 0, 0⟩, [0x78], [], [0x6F, 0x32]⟩, true⟩]
+    (ins ++ outs).all Martian.FormatDecl.wfParam = true ∧ ins.all (fun p => !p.out) = true ∧ outs.all (fun p => p.out) = true ∧
+      parseParamsToks (toksParams (ins ++ outs)) = some (ins ++ outs) ∧
+      widths (ins ++ outs) = (3, 13, 34, 24) := by decide +kernel
+
+/-- non-vacuity: a dotted filetype whose components are id-like keywords -/
+example : wfFiletype ⟨[[0x6A, 0x73, 0x6F, 0x6E], sFiletype, sStruct]⟩ = true ∧
+    parseFiletypeToks (toksFiletype ⟨[[0x6A, 0x73, 0x6F, 0x6E], sFiletype, sStruct]⟩) =
+      some ⟨[[0x6A, 0x73, 0x6F, 0x6E], sFiletype, sStruct]⟩ := by decide +kernel
+
+/-- Negative witnesses: outside `wf` the claim fails or the text is not in the
+language — a struct member named like a reserved word (`in`) is printed bare and
+is then a keyword token; `struct S()` has no member; `map<map>` is not a type
+(but `map` alone is); `filetype a..b;`; an out name on an input parameter is
+neither printed (`GetOutName()` is `""`) nor accepted by the grammar; `default`
+is not an identifier, an unnamed output is written without id -/
+theorem decl_near_misses :
+    wfMember ⟨⟨[sInt], 0, 0⟩, sIn, [], []⟩ = false ∧
+    parseStructToks [.id sStruct, .id [0x53], .punct 0x28, .reserved sInt, .reserved sIn, .punct 0x2C,
+      .punct 0x29] = none ∧
+    wfStruct ⟨[0x53], []⟩ = false ∧ parseStructToks [.id sStruct, .id [0x53], .punct 0x28, .punct 0x29] = none ∧
+    wfType ⟨[sMap], 0, 1⟩ = false ∧ wfType ⟨[sMap], 2, 0⟩ = true ∧
+    pType 9 [.reserved sMap, .punct 0x3C, .reserved sMap, .punct 0x3E, .id [0x78]] = none ∧
+    parseFiletypeToks [.id sFiletype, .id [0x61], .punct 0x2E, .punct 0x2E, .id [0x62], .punct 0x3B] = none ∧
+    Martian.FormatDecl.wfParam ⟨⟨⟨[sInt], 0, 0⟩, [0x78], [0x68], [0x6F]⟩, false⟩ = false ∧
+    parseParamsToks (toksParams [⟨⟨⟨[sInt], 0, 0⟩, [0x78], [0x68], [0x6F]⟩, false⟩]) =
+      some [⟨⟨⟨[sInt], 0, 0⟩, [0x78], [0x68], []⟩, false⟩] ∧
+    parseParamsToks [.reserved sIn, .reserved sInt, .id [0x78], .str [0x22, 0x68, 0x22], .str [0x22, 0x6F, 0x22],
+      .punct 0x2C] = none ∧
+    parseParamsToks [.reserved sOut, .kDefault, .reserved sInt, .id [0x78], .punct 0x2C] = none ∧
+    wfMember ⟨⟨[sInt], 0, 0⟩, sDefault, [], []⟩ = false ∧
+    fmtParam 3 3 0 0 ⟨⟨⟨[sInt], 0, 0⟩, sDefault, [], []⟩, true⟩ =
+      [0x20, 0x20, 0x20, 0x20, 0x6F, 0x75, 0x74, 0x20, 0x69, 0x6E, 0x74, 0x2C, 0x0A] := by decide +kernel
+
+end Declarations
+
+/-! ## The trailing clauses of a stage declaration: `src` line, `using (…)`, `retain (…)`
+
+Model: Martian/FormatRes.lean (`fmtGB` = `formatGB`, `fmtRes` = `Resources.format`, `fmtRetain` =
+`RetainParams.format`, `fmtSrc` = `SrcParam.format`; readers for `float_32` + `roundUpTo`,
+`resources`/`resource_list`, `stage_retain`, `src_stm`); tied to the real formatter and parser by
+harness/c09res.go on every run.  Each clause is stated for an arbitrary following text / token
+list, so that whole stage declarations can be assembled from them. -/
+section StageClauses
+open Martian.FormatExp Martian.FormatRes
+open Martian.FormatCall (tLP tRP)
+open Martian.Lexer (Bytes)
+
+/-- **formatGB round trip.**  For every `int64`-sized number of MB the text `formatGB` prints is
+exactly one numeric token (NUM_INT for a whole number of GB, NUM_FLOAT otherwise), also when a
+terminator byte (`,` …) and anything else follow, and reading the token back with
+`roundUpTo(·, 1024)` (exact decimal value, rounded away from zero) gives the same number of MB. -/
+theorem formatGB_roundtrip (mb : Int) (hb : mb.natAbs < 2 ^ 63) :
+    readGB (fmtGB mb) = some mb ∧ readGBTok (tokGB mb) = some mb ∧
+    (∀ c r, isTerm c = true → Martian.Lexer.numTok false (fmtGB mb ++ c :: r) =
+      if mb.natAbs % 1024 = 0 then .int (fmtGB mb) else .float (fmtGB mb)) :=
+  ⟨readGB_fmtGB mb hb, readGBTok_fmtGB mb hb,
+    fun c r hc => by rw [numTok_append _ c r hc]; exact numTok_fmtGB mb hb⟩
+
+/-- non-vacuity: 1.5 GB, -1/1024 GB (`-0.0009`), 307/1024 GB (`0.299`), 0, the largest value -/
+example : fmtGB 1536 = [0x31, 0x2E, 0x35] ∧ fmtGB (-1) = [0x2D, 0x30, 0x2E, 0x30, 0x30, 0x30, 0x39] ∧
+    fmtGB 307 = [0x30, 0x2E, 0x32, 0x39, 0x39] ∧ fmtGB 0 = [0x30] ∧ readGB (fmtGB 307) = some 307 ∧
+    readGB (fmtGB (2 ^ 63 - 1)) = some (2 ^ 63 - 1) ∧
+    readGB [0x31, 0x65, 0x2D, 0x35] = some 1 ∧                -- 1e-5 rounds up to 1/1024
+    readGB [0x2D, 0x30, 0x2E, 0x30] = some 0 := by decide +kernel
+
+/-- **F25 (known finding), negative witness.**  `int64(gb*1024)` overflows for `gb ≥ 2^53`
+(amd64: the conversion yields `MinInt64`): a huge positive value is printed as a negative number,
+a huge negative one as `--9007199254740992`, which is not even a token.  Below `2^63` MB the Go
+arithmetic is the exact one. -/
+theorem formatGB_overflow :
+    fmtGBgo (2 ^ 63) = [0x2D, 0x39, 0x30, 0x30, 0x37, 0x31, 0x39, 0x39, 0x32, 0x35, 0x34, 0x37, 0x34,
+      0x30, 0x39, 0x39, 0x32] ∧
+    readGB (fmtGBgo (2 ^ 63)) = some (-(2 ^ 63)) ∧
+    fmtGBgo (-(2 ^ 63)) = 0x2D :: fmtGBgo (2 ^ 63) ∧
+    Martian.Lexer.numTok false (fmtGBgo (-(2 ^ 63))) = .nomatch ∧
+    readGB (fmtGBgo (-(2 ^ 63))) = none ∧
+    (∀ x : Int, x.natAbs < 2 ^ 63 → fmtGBgo x = fmtGB x) :=
+  ⟨by decide +kernel, by decide +kernel, by decide +kernel, by decide +kernel, by decide +kernel,
+    fmtGBgo_eq⟩
+
+/-- **F29 (finding), negative witness.**  The round trip above is about the exact decimal value
+of the printed text.  The real parser first rounds the literal to the nearest float32
+(`readGB32`: `tryParseFloat32`, then `roundUpTo`); from 256 GB on that rounding eats the margin
+`formatGB` relies on: 256 GB + 44 MB is printed as `256.042`, whose float32 is exactly
+256 GB + 43 MB, so the value read back is 1 MB smaller (and is then printed as `256.0419`).
+Below 256 GB no value fails (exhaustive replay on the real arithmetic, harness/c09res.go notes). -/
+theorem formatGB_float32_witness :
+    fmtGB 262188 = [0x32, 0x35, 0x36, 0x2E, 0x30, 0x34, 0x32] ∧
+    readGB (fmtGB 262188) = some 262188 ∧ readGB32 (fmtGB 262188) = some 262187 ∧
+    fmtGB 262187 = [0x32, 0x35, 0x36, 0x2E, 0x30, 0x34, 0x31, 0x39] ∧
+    -- values below 256 GB with the same fraction are read back correctly
+    readGB32 (fmtGB (262188 - 1024)) = some (262188 - 1024) ∧ readGB32 (fmtGB 44) = some 44 ∧
+    -- the float32 rounding of a literal: 0.5000000001 is 0.5 (exactly 512 MB), not 513 MB
+    readGB32 [0x30, 0x2E, 0x35, 0x30, 0x30, 0x30, 0x30, 0x30, 0x30, 0x30, 0x30, 0x31] = some 512 ∧
+    readGB [0x30, 0x2E, 0x35, 0x30, 0x30, 0x30, 0x30, 0x30, 0x30, 0x30, 0x30, 0x31] = some 513 := by
+  decide +kernel
+
+/-- **Resources.**  For every well-formed `Resources` (values of `int64` size, `special` valid
+UTF-8, `threads` a NUM_FLOAT in the float32 range or a canonical NUM_INT; any subset of the five
+entries, including none): the printed block, followed by any text, lexes as `) using (` + its
+entries and then the tokens of that text; and `resources` reads these tokens, closed by `)`, back
+as the same `Resources`, leaving what follows.  (The printed order is the canonical one, so the
+result is identical, not just equal up to a normal form; printing it again gives the same text.) -/
+theorem parse_format_resources (r : Res) (hw : wfRes r = true) :
+    (∀ rest, lexAll (fmtRes r ++ rest) = (lexAll rest).map (toksRes r ++ ·)) ∧
+    toksRes r = tRP :: .id sUsing :: tLP :: toksResBody r ∧
+    (∀ ts, pResources (.id sUsing :: tLP :: (toksResBody r ++ tRP :: ts)) = some (some r, ts)) :=
+  ⟨fun rest => lexOK_fmtRes r hw rest trivial, rfl, pResources_toks r hw⟩
+
+/-- **Retain.** -/
+theorem parse_format_retain (ids : List Bytes) (hw : wfRetain ids = true) :
+    (∀ rest, lexAll (fmtRetain ids ++ rest) = (lexAll rest).map (toksRetain ids ++ ·)) ∧
+    toksRetain ids = tRP :: .id sRetain :: tLP :: toksRetainBody ids ∧
+    (∀ ts, pRetain (.id sRetain :: tLP :: (toksRetainBody ids ++ tRP :: ts)) = some (some ids, ts)) :=
+  ⟨fun rest => lexOK_fmtRetain ids hw rest trivial, rfl, pRetain_toks ids⟩
+
+/-- **The src line**, whatever the two column widths handed down by `Stage.format`: the reader
+gives back the language, the path and the arguments (`strings.Fields` inverts the
+`strings.Join(·, " ")` of the printer on fields without white space). -/
+theorem parse_format_src (mw tw : Nat) (lang : Lang) (path : Bytes) (args : List Bytes)
+    (hw : wfSrc path args = true) :
+    (∀ rest, lexAll (fmtSrc mw tw lang path args ++ rest) =
+      (lexAll rest).map (toksSrc lang path args ++ ·)) ∧
+    (∀ ts, pSrc (toksSrc lang path args ++ ts) = some ((lang, path, args), ts)) :=
+  ⟨fun rest => lexOK_fmtSrc mw tw lang path args hw rest trivial, pSrc_toks lang path args hw⟩
+
+/-- **Both clauses and the closing parenthesis** (a stage that is not split), before a token list
+that does not itself begin with `using`/`retain`. -/
+theorem parse_format_stage_tail (res : Option Res) (ret : Option (List Bytes))
+    (hw1 : (match res with | some r => wfRes r | none => true) = true)
+    (hw2 : (match ret with | some ids => wfRetain ids | none => true) = true) :
+    (∀ rest, lexAll (fmtTail res ret ++ rest) = (lexAll rest).map (toksTail res ret ++ ·)) ∧
+    (∀ ts, NotId sUsing ts → NotId sRetain ts →
+      pTail (toksTail res ret ++ ts) = some ((res, ret), ts)) :=
+  ⟨fun rest => lexOK_fmtTail res ret hw1 hw2 rest trivial, pTail_toks res ret hw1⟩
+
+/-- **A whole declaration**: the text of a stage without parameters carrying all three clauses
+reads back as the same stage; hence formatting is idempotent on it. -/
+theorem parse_format_stage0 (s : Stage0) (hw : wfStage0 s = true) :
+    parseStage0 (fmtStage0 s) = some s ∧
+    (∀ s', parseStage0 (fmtStage0 s) = some s' → fmtStage0 s' = fmtStage0 s) := by
+  refine ⟨parseStage0_fmtStage0 s hw, ?_⟩
+  intro s' h
+  rw [parseStage0_fmtStage0 s hw] at h
+  injection h with h
+  rw [h]
+
+/-- non-vacuity: a well-formed stage with `exec`, two arguments, all five resources and two
+retained ids; the padding (`mem_gb   =`, `special  =`) and the fixed order -/
+example :
+    let s : Stage0 := ⟨[0x53], .exec, [0x61, 0x2E, 0x70, 0x79], [[0x2D, 0x78], [0x79]],
+      some ⟨some (-1537), some [0x68, 0x69], some [0x31, 0x65, 0x2B, 0x30, 0x36], some 1024, some true⟩,
+      some [[0x61], sRetain]⟩
+    wfStage0 s = true ∧ (pStage0 (toksStage0 s) == some s) = true ∧
+    (fmtRes ⟨some 1536, none, some [0x32], none, some false⟩ ==
+      sUsingOpen ++ indent ++ sMemGb ++ [0x20, 0x20] ++ sEq ++ [0x31, 0x2E, 0x35] ++ sEnd ++
+        indent ++ sThreads ++ [0x20] ++ sEq ++ [0x32] ++ sEnd ++
+        indent ++ sVolatile ++ sEq ++ sFalse ++ sEnd) = true ∧
+    fmtRes {} = sUsingOpen ∧ wfRes {} = true := by decide +kernel
+
+/-- Negative witnesses: entries in any order and repeated are accepted and the last value wins
+(`threads = 1, mem_gb = 1, threads = 2,`), `memgb` is `mem_gb`; `volatile = true`, a string for
+`threads`, an identifier for `special`, a missing comma and a float beyond the float32 range are
+rejected; an empty command and a command of blanks are rejected; a field with a no-break space
+is not well-formed (it would be split) -/
+theorem stage_clause_near_misses :
+    pResList [.id sThreads, .punct 0x3D, .int [0x31], .punct 0x2C, .id sMemgb, .punct 0x3D, .int [0x31],
+      .punct 0x2C, .id sThreads, .punct 0x3D, .int [0x32], .punct 0x2C, .punct 0x29] {} =
+      some (⟨some 1024, none, some [0x32], none, none⟩, []) ∧
+    pResList [.id sVolatile, .punct 0x3D, .kTrue, .punct 0x2C, .punct 0x29] {} = none ∧
+    pResList [.id sThreads, .punct 0x3D, .str [0x22, 0x32, 0x22], .punct 0x2C, .punct 0x29] {} = none ∧
+    pResList [.id sSpecial, .punct 0x3D, .id [0x78], .punct 0x2C, .punct 0x29] {} = none ∧
+    pResList [.id sMemGb, .punct 0x3D, .int [0x31], .punct 0x29] {} = none ∧
+    pResList [.id sMemGb, .punct 0x3D, .float [0x31, 0x65, 0x34, 0x30], .punct 0x2C, .punct 0x29] {} = none ∧
+    readCmd [0x22, 0x22] = none ∧ readCmd [0x22, 0x20, 0x20, 0x22] = none ∧
+    pRetainList [.id [0x61], .punct 0x29] = none ∧
+    wfField [0x78, 0xC2, 0xA0, 0x79] = false ∧
+    fieldsU [0x78, 0xC2, 0xA0, 0x79, 0x09, 0x7A] = [[0x78], [0x79], [0x7A]] := by decide +kernel
+
+end StageClauses
+
+/-! ## the full call statement and the other statements of a pipeline body
+
+Model: `Martian.FormatCall2`.  `fmtCall2 p c` = `CallStm.format(printer, p)` (`p` = `""` for the
+top-level call of a file, INDENT inside a pipeline) with `map`, `as`, the wildcard binding
+`* = self` / `* = REF` (after which `BindStms.format` stops), the `) using (` block (keyword
+modifiers converted to `= true` bindings unless bound, sorted by id, aligned); `fmtReturn`,
+`fmtPRetain`, `fmtBody` = `ReturnStm.format`, `PipelineRetains.format`, the statement part of
+`Pipeline.format`.  Readers `pCall2` / `pReturn` / `pPRetain` / `pBody` on tokens (they return the
+remaining tokens), `parseCall2` / `parseBody` on source text.  `wfCall2`: ids are identifiers,
+binding values well-formed (`wfBind`), the wildcard value is `self` or a well-formed reference,
+the `using` block holds distinct ids out of local/preflight/volatile (boolean) and disabled
+(well-formed reference).  `normCall2`: `norm` on the binding values, keyword modifiers converted,
+block sorted.  Tied on every run (harness/c09call2.go): printed, respelled and near-miss texts of
+top-level calls and of pipeline bodies against `UncheckedParse` and `FormatSrcBytes`, and
+`Ast.Format` on an AST whose wildcard binding was moved off the last position. -/
+section PipelineStatements
+open Martian.FormatExp Martian.FormatCall Martian.FormatCall2
+
+/-- **Round trip, call statement.**  For EVERY well-formed call statement (`call` / `map call`, any
+callee name incl. `local`/`preflight`/`volatile`, `as`, explicit and split bindings, a final
+wildcard binding, keyword modifiers, a `using` block, or both), the reader accepts the printed
+text of a file holding just the call and returns the call in normal form. -/
+theorem parse_format_call2 (c : Call2) (hw : wfCall2 c = true) :
+    parseCall2 (fmtCall2 [] c) = some (normCall2 c) :=
+  parseCall2_fmtCall2 c hw
+
+/-- **Round trip inside a pipeline**: whatever the (white-space) indentation and whatever text
+follows, as long as that text lexes and its first token is not `using`: the reader returns the
+normal form of the call and the tokens of the following text. -/
+theorem parse_format_call2_in_context (p : List UInt8) (c : Call2) (rest : List UInt8) (ts : List Tok)
+    (hp : p.all isSp = true) (hw : wfCall2 c = true) (hrest : lexAll rest = some ts)
+    (hr : ∀ r, ts ≠ .id sUsing :: r) :
+    (lexAll (fmtCall2 p c ++ rest)).bind pCall2 = some (normCall2 c, ts) :=
+  pCall2_fmtCall2 p c rest ts hp hw hrest hr
+
+/-- **Idempotent, call statement.**  Printing what was read back gives the same text, with any prefix. -/
+theorem format_call2_idem (p : List UInt8) (c : Call2) (hw : wfCall2 c = true) :
+    fmtCall2 p (normCall2 c) = fmtCall2 p c :=
+  fmtCall2_norm p c hw
+
+/-- the normal form is well formed and a fixed point of `normCall2` (the latter for every call) -/
+theorem normCall2_stable (c : Call2) (hw : wfCall2 c = true) :
+    wfCall2 (normCall2 c) = true ∧ normCall2 (normCall2 c) = normCall2 c :=
+  ⟨wfCall2_norm c hw, normCall2_idem c⟩
+
+/-- read-then-print-then-read: the call read back prints the same and reads back as itself -/
+theorem format_parse_format_call2 (c c' : Call2) (hw : wfCall2 c = true)
+    (h : parseCall2 (fmtCall2 [] c) = some c') :
+    fmtCall2 [] c' = fmtCall2 [] c ∧ wfCall2 c' = true ∧ parseCall2 (fmtCall2 [] c') = some c' := by
+  rw [parse_format_call2 c hw] at h
+  injection h with h
+  subst h
+  refine ⟨fmtCall2_norm [] c hw, wfCall2_norm c hw, ?_⟩
+  rw [parse_format_call2 _ (wfCall2_norm c hw), normCall2_idem]
+
+/-- what the `using` block of the printed call holds: the bindings of the block and `= true` for
+every keyword modifier that has no binding, in ascending order of the ids; it is printed iff it is
+not empty; all of it is well formed with distinct ids -/
+theorem using_block_normal_form (m : Mods) (hw : wfMods m = true) :
+    sortedMods (modList m) = true ∧ (modList m).all wfMod = true ∧ distinctIds (modList m) = true ∧
+    usingPrinted m = !(modList m).isEmpty ∧
+    (∀ k, hasId k (modList m) = (hasId k m.binds || (m.loc && k == sLocal) ||
+      (m.pre && k == sPreflight) || (m.vol && k == sVolatile))) :=
+  ⟨sortMods_sorted _, (modList_wf m hw).1, (modList_wf m hw).2, usingPrinted_eq m, hasId_modList m⟩
+
+/-- the lexer sees exactly the intended tokens, whatever follows -/
+theorem lex_format_call2 (p : List UInt8) (c : Call2) (rest : List UInt8) (hp : p.all isSp = true)
+    (hw : wfCall2 c = true) :
+    lexAll (fmtCall2 p c ++ rest) = (lexAll rest).map (toksCall2 c ++ ·) :=
+  lexAll_fmtCall2 p c rest hp hw
+
+/-- `BindStms.format` on a list the parser does not build: nothing after the wildcard binding is
+printed (or measured for the alignment) -/
+theorem wildcard_ends_bindings (p : List UInt8) (bs : List Bind) (e : Exp) (junk : List Bind)
+    (h : ∀ b ∈ bs, b.id ≠ sStar) :
+    fmtBindStms p (bs ++ wildBind e :: junk) = fmtBindStms p (bs ++ [wildBind e]) :=
+  fmtBindStms_trunc p bs e junk h
+
+/-! ### definitional unfoldings (documentation of the model, not guarantees) -/
+/-- the model extends `Martian.FormatCall`: same text for a call without wildcard and modifiers -/
+theorem format_call2_extends_call (c : Call) (h : c.binds.all wfBind = true) :
+    fmtCall2 [] ⟨c.decId, c.id, c.binds, none, noMods⟩ = fmtCall c :=
+  fmtCall2_plain c h
+
+/-! ### guarantees (continued) -/
+/-- **Round trip, `return (…)`**, followed by any text that lexes -/
+theorem parse_format_return (r : Ret) (rest : List UInt8) (ts : List Tok) (hw : wfRet r = true)
+    (hrest : lexAll rest = some ts) :
+    (lexAll (fmtReturn r ++ rest)).bind pReturn = some (normRet r, ts) :=
+  pReturn_fmtReturn r rest ts hw hrest
+
+/-- **Idempotent, `return (…)`**; the normal form is stable -/
+theorem format_return_idem (r : Ret) (hw : wfRet r = true) :
+    fmtReturn (normRet r) = fmtReturn r ∧ wfRet (normRet r) = true ∧ normRet (normRet r) = normRet r :=
+  ⟨fmtReturn_norm r hw, wfRet_norm r hw, normRet_idem r⟩
+
+/-- **Round trip, `retain (…)`**, followed by any text that lexes: the references come back
+unchanged (so printing them again gives the same text) -/
+theorem parse_format_pipeline_retain (rs : List Exp) (rest : List UInt8) (ts : List Tok)
+    (hw : wfPRetain rs = true) (hrest : lexAll rest = some ts) :
+    (lexAll (fmtPRetain rs ++ rest)).bind pPRetain = some (some rs, ts) :=
+  pPRetain_fmtPRetain rs rest ts hw hrest
+
+/-- **Round trip, the statements of a pipeline** (`call`s in the order the formatter leaves them in,
+`return`, optional `retain`, the closing brace), followed by any text that lexes (the next
+declaration, the top-level call) -/
+theorem parse_format_body (b : Body) (rest : List UInt8) (ts : List Tok) (hw : wfBody b = true)
+    (hrest : lexAll rest = some ts) :
+    (lexAll (fmtBody b ++ rest)).bind pBody = some (normBody b, ts) :=
+  pBody_fmtBody b rest ts hw hrest
+
+/-- **Idempotent, the statements of a pipeline**; the normal form is stable -/
+theorem format_body_idem (b : Body) (hw : wfBody b = true) :
+    fmtBody (normBody b) = fmtBody b ∧ wfBody (normBody b) = true ∧ normBody (normBody b) = normBody b :=
+  ⟨fmtBody_norm b hw, wfBody_norm b hw, normBody_idem b⟩
+
+/-- non-vacuity: a well-formed map call of a callee named `local`, with `as`, a split binding, a
+plain binding whose value `norm` changes, a wildcard binding `* = self`, the keyword modifiers
+`local` and `volatile`, and a `using` block `volatile = false, disabled = D.x` (so `volatile` keeps
+its binding, `local = true` is added, and the block is re-ordered) -/
+example :
+    let c : Call2 := ⟨sLocal, [0x59],
+      [⟨[0x61], true, .ref true [0x70] []⟩, ⟨[0x62, 0x62], false, .struct [([0x6B], .float [0x31, 0x30, 0x30])]⟩],
+      some (.ref true [] []),
+      ⟨true, false, true, [(sVolatile, .bool false), (sDisabled, .ref false [0x44] [[0x78]])]⟩⟩
+    wfCall2 c = true ∧ isMap2 c = true ∧ usingPrinted c.mods = true ∧
+      toksMods (modList c.mods) = [.id sDisabled, .punct 0x3D, .id [0x44], .punct 0x2E, .id [0x78], .punct 0x2C,
+        .id sLocal, .punct 0x3D, .kTrue, .punct 0x2C, .id sVolatile, .punct 0x3D, .kFalse, .punct 0x2C] ∧
+      (pCall2 (toksCall2 c ++ [.reserved sReturn])).map (fun x => (toksCall2 x.1, x.2)) =
+        some (toksCall2 (normCall2 c), [.reserved sReturn]) := by decide +kernel
+
+/-- non-vacuity: a well-formed body: two calls, `return` with a wildcard, `retain` -/
+example :
+    let b : Body := ⟨[⟨[0x41], [0x41], [], none, ⟨false, true, false, []⟩⟩,
+        ⟨[0x42], [0x42], [⟨[0x78], false, .ref false [0x41] [[0x6F]]⟩], some (.ref false [0x41] []), noMods⟩],
+      ⟨[⟨[0x72], false, .ref false [0x42] [[0x6F]]⟩], some (.ref true [] [])⟩,
+      some [.ref false [0x42] [[0x6F]], .ref true [0x61] []]⟩
+    wfBody b = true ∧
+      (pBody (toksBody b)).map (fun x => (toksBody x.1, x.2)) = some (toksBody (normBody b), []) := by
+  decide +kernel
+
+/-- Negative witnesses.  (1) keyword `local` together with the binding `local = false`: the printer
+keeps the binding and drops the keyword (the block holds `local = false` only); (2) two `using`
+blocks: the reader keeps the second (`Modifiers.Bindings` is replaced); (3) a modifier keyword
+before `(` is the callee's name, twice it is a modifier and a name; (4) a binding after the
+wildcard, a wildcard that is not a reference, and `map call` with only a wildcard are rejected;
+(5) outside `wfCall2`: duplicate modifier ids, `disabled = true`, `local = 1`, a wildcard `* = 1`,
+a wildcard reference `self` with an output path but no parameter name. -/
+theorem call2_near_misses :
+    -- (1)
+    toksMods (modList ⟨true, false, false, [(sLocal, .bool false)]⟩) =
+      [.id sLocal, .punct 0x3D, .kFalse, .punct 0x2C] ∧
+    -- (2) call X() using (local = true,) using (volatile = true,)
+    (pCall2 [.reserved sCall, .id [0x58], .punct 0x28, .punct 0x29, .id sUsing, .punct 0x28, .id sLocal,
+      .punct 0x3D, .kTrue, .punct 0x2C, .punct 0x29, .id sUsing, .punct 0x28, .id sVolatile, .punct 0x3D,
+      .kTrue, .punct 0x2C, .punct 0x29]).map (fun x => (toksCall2 x.1, x.2)) =
+      some (toksCall2 ⟨[0x58], [0x58], [], none, ⟨false, false, false, [(sVolatile, .bool true)]⟩⟩, []) ∧
+    -- (3) call local()   /   call local local()
+    (pCall2 [.reserved sCall, .id sLocal, .punct 0x28, .punct 0x29]).map (fun x => (x.1.mods.loc, x.1.decId)) =
+      some (false, sLocal) ∧
+    (pCall2 [.reserved sCall, .id sLocal, .id sLocal, .punct 0x28, .punct 0x29]).map
+      (fun x => (x.1.mods.loc, x.1.decId)) = some (true, sLocal) ∧
+    -- (4) call X(* = self, a = 1,)   /   call X(* = 1,)   /   map call X(* = self,)
+    (pCall2 [.reserved sCall, .id [0x58], .punct 0x28, .punct 0x2A, .punct 0x3D, .kSelf, .punct 0x2C,
+      .id [0x61], .punct 0x3D, .int [0x31], .punct 0x2C, .punct 0x29]).isNone = true ∧
+    (pCall2 [.reserved sCall, .id [0x58], .punct 0x28, .punct 0x2A, .punct 0x3D, .int [0x31], .punct 0x2C,
+      .punct 0x29]).isNone = true ∧
+    (pCall2 [.reserved sMap, .reserved sCall, .id [0x58], .punct 0x28, .punct 0x2A, .punct 0x3D, .kSelf,
+      .punct 0x2C, .punct 0x29]).isNone = true ∧
+    -- (5)
+    wfMods ⟨false, false, false, [(sLocal, .bool true), (sLocal, .bool false)]⟩ = false ∧
+    wfMod (sDisabled, .bool true) = false ∧ wfMod (sLocal, .int 1) = false ∧
+    wfWild (.int 1) = false ∧ wfWild (.ref true [] [[0x78]]) = false := by decide +kernel
+
+end PipelineStatements
+
+/-! ## Whole `stage` declarations
+
+Model: Martian/FormatStage.lean (`fmtStage` = `Stage.format` without comments: the column widths
+of `measureParamsWidths` over all four parameter lists, `modeWidth = max(·, len "src")`, the src
+line, the quirk that re-measures the id and help columns over the chunk lists alone when the
+overall id column is wider than 30 or the help column wider than 20, `) split (`, the `using` and
+`retain` clauses; `pStage` = the grammar's `stage` production with `split_param_list` in both
+spellings, on a token list, returning the tokens after the declaration; `parseStage` = a file
+that is one stage declaration; `wfStage` = what the parser can produce).  The round trip is the
+identity on well-formed stages: the only normalisations (`split using (` → `split (`, the order
+and spelling of the resource entries, white space) are on the text side.  Tied on every run by
+harness/c09stage.go: `fmtStage` vs `FormatSrcBytes` byte for byte, `parseStage` vs every field of
+the `syntax.Stage` read by `Parser.UncheckedParse`, on generated, respelled and near-miss texts. -/
+section StageDeclarations
+open Martian.FormatExp Martian.FormatDecl Martian.FormatRes Martian.FormatStage
+open Martian.FormatCall (tLP tRP)
+open Martian.Lexer (Bytes)
+
+/-- **Round trip, whole stage declarations.**  For EVERY well-formed stage (any number of in,
+out, chunk-in and chunk-out parameters of every shape `parse_format_params` covers, ids and help
+texts of any length — hence whichever way the 35/25 cut-offs of `getWidths` and the 30/20 quirk of
+`Stage.format` fall —, every language, a command with arguments, split or not, any `Resources`
+incl. negative and fractional `mem_gb`, any retain list) the reader accepts the printed text and
+returns exactly the stage. -/
+theorem parse_format_stage (s : Stage) (hw : wfStage s = true) : parseStage (fmtStage s) = some s :=
+  parseStage_fmtStage s hw
+
+/-- **Idempotence.**  If a text reads as a well-formed stage, the formatter's output for it reads
+as the same stage, and whatever the output reads as prints to the same output again: formatting
+the output changes nothing. -/
+theorem format_stage_idem (t : Bytes) (s : Stage) (_h : parseStage t = some s) (hw : wfStage s = true) :
+    parseStage (fmtStage s) = some s ∧
+    (∀ s', parseStage (fmtStage s) = some s' → fmtStage s' = fmtStage s) := by
+  refine ⟨parseStage_fmtStage s hw, ?_⟩
+  intro s' h
+  rw [parseStage_fmtStage s hw] at h
+  injection h with h
+  rw [h]
+
+/-- **Lexing layer.**  The printed declaration followed by ANY text lexes as its token sequence
+followed by the tokens of that text (a file is a sequence of declarations). -/
+theorem lex_format_stage (s : Stage) (hw : wfStage s = true) :
+    lexAll (fmtStage s) = some (toksStage s) ∧
+    (∀ rest, lexAll (fmtStage s ++ rest) = (lexAll rest).map (toksStage s ++ ·)) :=
+  ⟨lexAll_fmtStage s hw, lexAll_fmtStage_append s hw⟩
+
+/-- **Token layer.**  `pStage` reads the tokens of the declaration and returns the token list
+that follows, provided that list does not begin with `split`, `using` or `retain` (`stageEnd`;
+every declaration keyword and the end of the input qualify). -/
+theorem read_stage (s : Stage) (hw : wfStage s = true) (rest : List Tok) (hr : stageEnd rest = true) :
+    pStage (toksStage s ++ rest) = some (s, rest) :=
+  pStage_toks s hw rest hr
+
+/-- what may follow: the end of the input and the keywords that start a declaration -/
+example : stageEnd [] = true ∧ stageEnd [.reserved sStage] = true ∧ stageEnd [.id sStruct] = true ∧
+    stageEnd [.id sFiletype] = true ∧ stageEnd [.reserved [0x70, 0x69, 0x70, 0x65, 0x6C, 0x69, 0x6E, 0x65]] = true ∧
+    stageEnd [.reserved [0x63, 0x61, 0x6C, 0x6C]] = true ∧ stageEnd [.id sUsing] = false := by decide
+
+/-! ### definitional unfoldings (documentation of the model, not guarantees) -/
+/-- the `split using (` spelling reads as `split (` -/
+theorem read_split_using (f : Nat) (ts : List Tok) :
+    pSplit f (tRP :: .id sSplit :: .id sUsing :: tLP :: ts) = pSplit f (tRP :: .id sSplit :: tLP :: ts) :=
+  pSplit_using f ts
+
+/-! ### guarantees (continued) -/
+/-- non-vacuity (`exampleStage`, `exampleStage30`: Proofs/FormatStageParse.lean): a well-formed stage that uses every clause — in and out parameters (named and
+unnamed, help, out name), chunk parameters, an id of 31 bytes and a help text of 21 bytes (over
+the 30/20 thresholds: the chunk parameters are laid out with the widths of the chunk lists alone,
+id column 7 = `default`, help column 1, not 31 and 21), all five resources with `mem_gb = -0.5`,
+a retain list, a command with arguments; the whole text reads back as the stage, and so do its
+tokens before another declaration.  With an id of 30 and a help text of 20 bytes the chunk
+parameters share the columns of the others (30, 20). -/
+example :
+    wfStage exampleStage = true ∧
+    stageWidths exampleStage = (3, 16, 31, 21) ∧ chunkW exampleStage = (7, 1) ∧ modeW exampleStage = 3 ∧
+    parseStage (fmtStage exampleStage) = some exampleStage ∧
+    pStage (toksStage exampleStage ++ [.reserved sStage]) = some (exampleStage, [.reserved sStage]) ∧
+    wfStage exampleStage30 = true ∧ stageWidths exampleStage30 = (3, 6, 30, 20) ∧
+    chunkW exampleStage30 = (30, 20) ∧ parseStage (fmtStage exampleStage30) = some exampleStage30 := by
+  set_option maxRecDepth 100000 in decide +kernel
+
+/-- Negative witnesses and spelling normalisations.  `split using (` is accepted and printed as
+`split (` (with `py` padded to the type column, 3); `split ()` is a split stage without chunk parameters (both lists may be empty); a
+stage that is not split cannot hold chunk parameters (`wfStage` false: they would not be
+printed); an in parameter named like a reserved word (`src`) is outside `wfStage`, and its
+printed form is not in the language; `) using (…) split (…)`, `retain` before `using`, an out
+parameter before an in parameter, an in parameter after the chunk outs, a missing `src` line and
+two `src` lines are all rejected. -/
+theorem stage_near_misses :
+    let srcX : List Tok := [.reserved sSrc, .reserved sPy, .str [0x22, 0x78, 0x22], tComma]
+    let hd : List Tok := [.reserved sStage, .id [0x53], tLP]
+    let inC : List Tok := [.reserved sIn, .reserved sInt, .id [0x63], tComma]
+    let outD : List Tok := [.reserved sOut, .reserved sInt, tComma]
+    let sC : Stage := ⟨[0x53], [], [], .py, [0x78], [], true, [⟨⟨⟨[sInt], 0, 0⟩, [0x63], [], []⟩, false⟩], [],
+      none, none⟩
+    pStageAll (hd ++ srcX ++ [tRP, .id sSplit, .id sUsing, tLP] ++ inC ++ [tRP]) = some sC ∧
+    pStageAll (hd ++ srcX ++ [tRP, .id sSplit, tLP] ++ inC ++ [tRP]) = some sC ∧
+    fmtStage sC = [0x73, 0x74, 0x61, 0x67, 0x65, 0x20, 0x53, 0x28, 0x0A, 0x20, 0x20, 0x20, 0x20, 0x73, 0x72,
+      0x63, 0x20, 0x70, 0x79, 0x20, 0x20, 0x22, 0x78, 0x22, 0x2C, 0x0A, 0x29, 0x20, 0x73, 0x70, 0x6C, 0x69, 0x74, 0x20,
+      0x28, 0x0A, 0x20, 0x20, 0x20, 0x20, 0x69, 0x6E, 0x20, 0x20, 0x69, 0x6E, 0x74, 0x20, 0x63, 0x2C, 0x0A, 0x29,
+      0x0A] ∧
+    pStageAll (hd ++ srcX ++ [tRP, .id sSplit, tLP, tRP]) = some { sC with chunkIns := [] } ∧
+    wfStage { sC with chunkIns := [] } = true ∧
+    wfStage { sC with split := false } = false ∧
+    pStageAll (toksStage { sC with split := false }) = some { sC with split := false, chunkIns := [] } ∧
+    wfStage { sC with ins := [⟨⟨⟨[sInt], 0, 0⟩, sSrc, [], []⟩, false⟩] } = false ∧
+    pStageAll (hd ++ [.reserved sIn, .reserved sInt, .reserved sSrc, tComma] ++ srcX ++ [tRP]) = none ∧
+    wfStage { sC with id := sStage } = false ∧
+    pStageAll (hd ++ srcX ++ [tRP, .id sUsing, tLP, tRP, .id sSplit, tLP] ++ inC ++ [tRP]) = none ∧
+    pStageAll (hd ++ srcX ++ [tRP, .id sRetain, tLP, tRP, .id sUsing, tLP, tRP]) = none ∧
+    pStageAll (hd ++ srcX ++ [tRP, .id sUsing, tLP, tRP, .id sRetain, tLP, tRP]) =
+      some ⟨[0x53], [], [], .py, [0x78], [], false, [], [], some {}, some []⟩ ∧
+    pStageAll (hd ++ outD ++ inC ++ srcX ++ [tRP]) = none ∧
+    pStageAll (hd ++ inC ++ outD ++ srcX ++ [tRP]) ≠ none ∧
+    pStageAll (hd ++ srcX ++ [tRP, .id sSplit, tLP] ++ outD ++ inC ++ [tRP]) = none ∧
+    pStageAll (hd ++ inC ++ [tRP]) = none ∧
+    pStageAll (hd ++ srcX ++ srcX ++ [tRP]) = none ∧
+    pStageAll (hd ++ srcX ++ [tRP, .id sSplit, .id sUsing, .id sUsing, tLP, tRP]) = none := by
+  set_option maxRecDepth 100000 in decide +kernel
+
+end StageDeclarations
+
+/-! ## Whole pipeline declarations, including the reordering of calls
+
+Model `Martian.FormatPipe`: `Pipeline.format` (format_callable.go), `directDepsMap` / `topoSort`
+(compile_pipelines.go), the production `pipeline` (grammar.y).  `callEdges` is `directDepsMap` on
+positions, `sortCalls` is `Pipeline.Calls` after `topoSort()` (unchanged when `directDepsMap`
+reports an error or `addNextDeps` a cycle), `fmtPipeline` prints the sorted calls.  Tied to the
+real code by harness/c09pipe.go: the model's text with the calls in SOURCE order, fed to the real
+`FormatSrcBytes`, gives the model's `fmtPipeline` byte for byte. -/
+section PipelineDeclarations
+open Martian.FormatExp Martian.FormatCall Martian.FormatCall2 Martian.FormatPipe
+
+/-- **The closure is the least one.**  The dependency relation `topoSort` sorts by is contained
+in every transitive relation on the calls that contains the direct dependencies: the `for
+changes` loop of `addNextDeps` adds nothing but consequences of transitivity.  (With
+`closedDeps_contains_edges` and `closedDeps_transitive`: it IS the transitive closure.) -/
+theorem closedDeps_least (n : Nat) (edges : List (Nat × Nat)) (R : Nat → Nat → Prop)
+    (hE : ∀ a b, a < n → b < n → (a, b) ∈ edges → R a b)
+    (htr : ∀ a b c, a < n → b < n → c < n → R a b → R b c → R a c)
+    (a b : Nat) (ha : a < n) (hb : b < n) (h : closedDeps n edges a b = true) : R a b :=
+  closedDeps_least' n edges R hE htr a b ha hb h
+
+/-- non-vacuity: the relation "a < b" contains the chain and is transitive; the closure of the
+chain is exactly it (`closedDeps_transitive` example above), while the total relation also
+satisfies the hypotheses and is strictly larger -/
+example : closedDeps 5 [(0, 1), (1, 2), (2, 3), (3, 4)] 0 4 = true ∧
+    closedDeps 5 [(0, 1), (1, 2), (2, 3), (3, 4)] 4 0 = false := by decide
+
+/-- **A sorted arrangement stays where it is.**  If `L` arranges the calls `0 … n-1` in
+dependency order (closed relation of `edges`), and `edges'` are dependencies between positions of
+`L` that all come from `edges`, then `topoSort` on the positions moves nothing — whether or not
+`edges'` is cyclic. -/
+theorem topoSort_of_sorted_arrangement (n : Nat) (edges edges' : List (Nat × Nat)) (L : List Nat)
+    (hp : L.Perm (List.range n)) (hs : sortedFrom (closedDeps n edges) L = true)
+    (he : ∀ i j, i < n → j < n → (i, j) ∈ edges' → (L.getD i 0, L.getD j 0) ∈ edges) :
+    topoSort n edges' = List.range n :=
+  topoSort_relabel n edges edges' L hp hs he
+
+/-- **`directDepsMap` on positions.**  Call `a` depends on call `b` iff a binding value or a
+modifier binding value of `a` holds a reference (kind call) to an id which `callMap` resolves to
+`b` (the last call with that id). -/
+theorem callEdges_spec (cs : List Call2) (a b : Nat) :
+    (a, b) ∈ callEdges cs ↔ ∃ c, cs[a]? = some c ∧ ∃ x ∈ callRefs c, lastPos x cs = some b :=
+  mem_callEdges cs a b
+
+/-- **The reordering is a permutation** of the calls of the pipeline (any pipeline: errors,
+cycles, duplicate ids included). -/
+theorem sortCalls_perm (pid : List UInt8) (cs : List Call2) : (sortCalls pid cs).Perm cs :=
+  sortCalls_perm' pid cs
+
+/-- **The reordering respects dependencies.**  When `directDepsMap` reports no error and there
+is no cycle, no call is printed before a call whose id it refers to (distinct call ids). -/
+theorem sortCalls_respects_deps (pid : List UInt8) (cs : List Call2) (hd : distinctCallIds cs = true)
+    (herr : depsError pid cs = false) (hcyc : callCycle cs = false)
+    (A B : List Call2) (c : Call2) (hl : sortCalls pid cs = A ++ c :: B) :
+    ∀ c' ∈ B, c'.id ∉ callRefs c :=
+  sortCalls_respects_deps' pid cs hd herr hcyc A B c hl
+
+/-- **The reordering is idempotent** (distinct call ids; errors and cycles included), and it
+commutes with the normal form of the calls (the normal form keeps ids and references). -/
+theorem sortCalls_idempotent (pid : List UInt8) (cs : List Call2) (hd : distinctCallIds cs = true) :
+    sortCalls pid (sortCalls pid cs) = sortCalls pid cs ∧
+      sortCalls pid (cs.map normCall2) = (sortCalls pid cs).map normCall2 :=
+  ⟨sortCalls_idem pid cs hd, sortCalls_norm pid cs⟩
+
+/-- **Round trip, whole pipeline**: for every well-formed pipeline, whatever the order of its
+calls, the printed text reads back as the pipeline with its calls in `topoSort` order, each in
+normal form. -/
+theorem parse_format_pipeline (p : Pipeline) (hw : wfPipeline p = true) :
+    parsePipeline (fmtPipeline p) = some (normPipeline p) :=
+  parsePipeline_fmtPipeline p hw
+
+/-- the same followed by any text (the next declaration of the file) -/
+theorem parse_format_pipeline_in_context (p : Pipeline) (rest : List UInt8) (ts : List Tok)
+    (hw : wfPipeline p = true) (hrest : lexAll rest = some ts) :
+    (lexAll (fmtPipeline p ++ rest)).bind pPipeline = some (normPipeline p, ts) :=
+  pPipeline_fmtPipeline p rest ts hw hrest
+
+/-- **Idempotent, whole pipeline**: printing what was read back gives the same text.  (The
+printed calls are in `topoSort` order; the second `topoSort` sees the relabelled dependency
+graph and moves nothing: `topoSort_of_sorted_arrangement`, by `closedDeps_least`.) -/
+theorem format_pipeline_idem (p : Pipeline) (hw : wfPipeline p = true) :
+    fmtPipeline (normPipeline p) = fmtPipeline p :=
+  fmtPipeline_norm p hw
+
+/-- the normal form is well formed and a fixed point -/
+theorem normPipeline_stable (p : Pipeline) (hw : wfPipeline p = true) :
+    wfPipeline (normPipeline p) = true ∧ normPipeline (normPipeline p) = normPipeline p :=
+  normPipeline_stable' p hw
+
+/-- `format ∘ parse ∘ format = format` -/
+theorem format_parse_format_pipeline (p q : Pipeline) (hw : wfPipeline p = true)
+    (hq : parsePipeline (fmtPipeline p) = some q) : fmtPipeline q = fmtPipeline p := by
+  rw [parse_format_pipeline p hw] at hq
+  injection hq with hq
+  rw [← hq]
+  exact format_pipeline_idem p hw
+
+/-- **The formatter on calls in any order.**  The text of a well-formed pipeline with its calls
+in SOURCE order reads as that pipeline (calls in source order, each in normal form), and
+formatting what was read gives `fmtPipeline p`. -/
+theorem format_source_order (p : Pipeline) (hw : wfPipeline p = true) :
+    ∃ q, parsePipeline (fmtPipelineRaw p) = some q ∧ fmtPipeline q = fmtPipeline p :=
+  ⟨_, parsePipeline_fmtPipelineRaw p hw, fmtPipeline_of_raw p hw⟩
+
+/-- the printed pipeline lexes as `toksPipeline p`, whatever text follows -/
+theorem lex_format_pipeline (p : Pipeline) (rest : List UInt8) (hw : wfPipeline p = true) :
+    lexAll (fmtPipeline p ++ rest) = (lexAll rest).map (toksPipeline p ++ ·) :=
+  Martian.FormatCall2.lexAll_of_lexOK (lexOK_fmtPipeline p hw) rest
+
+/-- the token-level reader on the tokens of the printed pipeline, followed by any tokens -/
+theorem read_pipeline (p : Pipeline) (rest : List Tok) (hw : wfPipeline p = true) :
+    pPipeline (toksPipeline p ++ rest) = some (normPipeline p, rest) :=
+  pPipeline_toks p rest hw
+
+/-- the pipeline of the examples: `pipeline P(in int a, out int r "h",)` with the calls, in
+source order, `map call C(x = split B.o, * = self,) using (disabled = A.d,)`,
+`call local B(y = [A.o],)`, `call A(z = self.a,)`, `return (r = C.o,)`, `retain (C.o,)` -/
+def samplePipeline : Pipeline :=
+  ⟨[0x50],
+    [⟨⟨⟨[Martian.FormatDecl.sInt], 0, 0⟩, [0x61], [], []⟩, false⟩],
+    [⟨⟨⟨[Martian.FormatDecl.sInt], 0, 0⟩, [0x72], [0x68], []⟩, true⟩],
+    ⟨[⟨[0x43], [0x43], [⟨[0x78], true, .ref false [0x42] [[0x6F]]⟩], some (.ref true [] []),
+        ⟨false, false, false, [(sDisabled, .ref false [0x41] [[0x64]])]⟩⟩,
+      ⟨[0x42], [0x42], [⟨[0x79], false, .arr [.ref false [0x41] [[0x6F]]]⟩], none, ⟨true, false, false, []⟩⟩,
+      ⟨[0x41], [0x41], [⟨[0x7A], false, .ref true [0x61] []⟩], none, noMods⟩],
+     ⟨[⟨[0x72], false, .ref false [0x43] [[0x6F]]⟩], none⟩,
+     some [.ref false [0x43] [[0x6F]]]⟩⟩
+
+/-- non-vacuity: a well-formed pipeline whose three calls must all move: `C` depends on `B`
+through a split binding and on `A` through `disabled = A.d`, `B` on `A` through an array;
+`self.a` and the wildcard `* = self` are no dependencies.  The reader on the tokens of the
+printed pipeline returns the normal form (calls `A, B, C`); on the tokens of the text in source
+order it returns the calls in source order. -/
+example :
+    wfPipeline samplePipeline = true ∧
+    callEdges samplePipeline.body.calls = [(0, 1), (0, 2), (1, 2)] ∧
+    depsError samplePipeline.id samplePipeline.body.calls = false ∧
+    callCycle samplePipeline.body.calls = false ∧
+    (sortCalls samplePipeline.id samplePipeline.body.calls).map (·.id) = [[0x41], [0x42], [0x43]] ∧
+    (pPipeline (toksPipeline samplePipeline ++ [.reserved sPipeline])).map
+        (fun x => (toksPipeline x.1, x.2)) =
+      some (toksPipeline (normPipeline samplePipeline), [.reserved sPipeline]) ∧
+    (pPipeline (toksPipelineRaw samplePipeline)).map (fun x => x.1.body.calls.map (·.id)) =
+      some [[0x43], [0x42], [0x41]] ∧
+    toksPipeline (normPipeline samplePipeline) ≠ toksPipelineRaw samplePipeline := by decide +kernel
+
+/-- Negative witnesses.  (1) a dependency cycle: the calls are printed in source order;
+(2) a pipeline that calls itself: `directDepsMap` returns an error, nothing is reordered although
+`B` refers to the later `A`; (3) a call bound to its own output: the same; (4) a reference to an
+id no call has is no dependency, nor is `self.A`; (5) with duplicate ids the LAST call wins
+(`callMap`), and such a pipeline is outside `wfPipeline`; (6) a pipeline without calls is read
+(second alternative of the production) and printed; (7) `return` is required, `retain` comes
+after it, outputs come after inputs. -/
+theorem pipeline_near_misses :
+    let call (id : List UInt8) (refs : List (List UInt8)) : Call2 :=
+      ⟨id, id, refs.map (fun r => ⟨[0x78], false, .ref false r [[0x6F]]⟩), none, noMods⟩
+    let ids (cs : List Call2) : List (List UInt8) := cs.map (·.id)
+    -- (1) call A(x = B.o)  call B(x = A.o)
+    callCycle [call [0x41] [[0x42]], call [0x42] [[0x41]]] = true ∧
+    depsError [0x50] [call [0x41] [[0x42]], call [0x42] [[0x41]]] = false ∧
+    ids (sortCalls [0x50] [call [0x41] [[0x42]], call [0x42] [[0x41]]]) = [[0x41], [0x42]] ∧
+    -- (2) call B(x = A.o)  call A()  call P()      inside pipeline P / inside pipeline Q
+    depsError [0x50] [call [0x42] [[0x41]], call [0x41] [], call [0x50] []] = true ∧
+    ids (sortCalls [0x50] [call [0x42] [[0x41]], call [0x41] [], call [0x50] []]) = [[0x42], [0x41], [0x50]] ∧
+    ids (sortCalls [0x51] [call [0x42] [[0x41]], call [0x41] [], call [0x50] []]) = [[0x41], [0x42], [0x50]] ∧
+    -- (3) call B(x = A.o)  call A(x = A.o)
+    depsError [0x50] [call [0x42] [[0x41]], call [0x41] [[0x41]]] = true ∧
+    ids (sortCalls [0x50] [call [0x42] [[0x41]], call [0x41] [[0x41]]]) = [[0x42], [0x41]] ∧
+    -- (4) call B(x = Z.o)  /  self.A
+    callEdges [call [0x42] [[0x5A]], call [0x41] []] = [] ∧
+    callEdges [⟨[0x42], [0x42], [⟨[0x78], false, .ref true [0x41] []⟩], none, noMods⟩, call [0x41] []] = [] ∧
+    -- (5) call B(x = A.o)  call A()  call A()
+    callEdges [call [0x42] [[0x41]], call [0x41] [], call [0x41] []] = [(0, 2)] ∧
+    distinctCallIds [call [0x42] [[0x41]], call [0x41] [], call [0x41] []] = false ∧
+    -- (6) pipeline P() { return () }
+    (pPipeline [.reserved sPipeline, .id [0x50], .punct 0x28, .punct 0x29, .punct 0x7B, .reserved sReturn,
+      .punct 0x28, .punct 0x29, .punct 0x7D]).map (fun x => (x.1.body.calls.length, x.2)) = some (0, []) ∧
+    wfPipeline ⟨[0x50], [], [], ⟨[], ⟨[], none⟩, none⟩⟩ = true ∧
+    -- (7) pipeline P() { }   /   … { retain () return () }   /   pipeline P(out int r, in int a,) { return () }
+    (pPipeline [.reserved sPipeline, .id [0x50], .punct 0x28, .punct 0x29, .punct 0x7B, .punct 0x7D]).isNone = true ∧
+    (pPipeline [.reserved sPipeline, .id [0x50], .punct 0x28, .punct 0x29, .punct 0x7B, .id sRetain, .punct 0x28,
+      .punct 0x29, .reserved sReturn, .punct 0x28, .punct 0x29, .punct 0x7D]).isNone = true ∧
+    (pPipeline [.reserved sPipeline, .id [0x50], .punct 0x28, .reserved Martian.FormatDecl.sOut,
+      .reserved Martian.FormatDecl.sInt, .id [0x72], .punct 0x2C, .reserved Martian.FormatDecl.sIn,
+      .reserved Martian.FormatDecl.sInt, .id [0x61], .punct 0x2C, .punct 0x29, .punct 0x7B, .reserved sReturn,
+      .punct 0x28, .punct 0x29, .punct 0x7D]).isNone = true := by decide +kernel
+
+end PipelineDeclarations
+
+/-! ## Whole files (model `Martian.FormatFile`; lemmas `Proofs/FormatFileParse.lean`, `Proofs/FormatFileLex.lean`)
+
+`File` is the Go `Ast` after `NewAst` for a comment-free source: include directives, `UserTypes`,
+`StructTypes`, `Callables.List` (stages and pipelines in source order), `Call`.  `fmtFile` is
+`Ast.format(true)` (what `FormatSrcBytes` returns), `parseFile` is `UncheckedParse`.
+
+COVERED by the theorems: every `File` whose parts are well formed (`wfFile`; every shape of
+parameter list, struct, stage, pipeline and call the earlier sections cover), any number of each
+kind of part; sources with the declarations of the four kinds in ANY order and any white space
+(blank lines) between the pieces, the calls of every pipeline in any order, in the CANONICAL
+SPELLING of the tokens (the spelling the printers of the parts use: `using (local = true,)` for a
+call modifier, `mem_gb`, …).  NOT covered: comments (the modelled fragment has none: `DumpComments`
+writes nothing); non-canonical spellings of tokens and other white space INSIDE a declaration
+(covered by the respelling cases of the harness of the parts, and by the harness of this part on
+the real code); `fixIncludes = true`; the expansion of `@include` (the included files are not
+read by `UncheckedParse`/`FormatSrcBytes` with `fixIncludes = false`); invalid UTF-8 in an include
+path (F6b). -/
+
+section WholeFile
+open Martian.FormatExp Martian.FormatDecl Martian.FormatCall2 Martian.FormatStage Martian.FormatPipe
+open Martian.FormatFile
+open Martian.Lexer (Bytes)
+
+/-- **Round trip, whole file.**  For EVERY well-formed file (any include lines, filetypes, structs,
+stages and pipelines, with or without a top-level call; at least a declaration or the call) the
+reader accepts the printed text and returns the file up to the documented normalisations
+(`normFile`: the calls of every pipeline in `topoSort` order, calls and `return` in normal form;
+everything else exactly). -/
+theorem parse_format_file (f : File) (hw : wfFile f = true) : parseFile (fmtFile f) = some (normFile f) :=
+  parseFile_fmtFile f hw
+
+/-- **Idempotent, whole file.**  Printing what was read gives the same text. -/
+theorem format_file_idem (f : File) (hw : wfFile f = true) : fmtFile (normFile f) = fmtFile f :=
+  fmtFile_norm f hw
+
+/-- the normal form is well formed and a fixed point -/
+theorem normFile_stable (f : File) (hw : wfFile f = true) :
+    wfFile (normFile f) = true ∧ normFile (normFile f) = normFile f :=
+  normFile_stable' f hw
+
+/-- `format ∘ parse ∘ format = format` -/
+theorem format_parse_format_file (f g : File) (hw : wfFile f = true)
+    (hg : parseFile (fmtFile f) = some g) : fmtFile g = fmtFile f := by
+  rw [parse_format_file f hw] at hg
+  injection hg with hg
+  rw [← hg]
+  exact format_file_idem f hw
+
+/-- **The reader accepts the declarations in any order; `NewAst` regroups them.**  A source that
+consists of include lines, well-formed declarations `ds` of the four kinds in ANY order (each in
+the printer's spelling, pipelines with their calls in `topoSort` order) and optionally the call,
+with any white space `w k` after piece number `k`, reads as the normal form of the file which
+`NewAst` builds (`distribute`: all filetypes, all structs, all callables, each group in source
+order). -/
+theorem parse_source_any_order (w : Nat → Bytes) (hws : ∀ k, (w k).all isSp = true)
+    (incs : List Bytes) (ds : List Decl) (call : Option Call2) (hw : wfSource incs ds call = true) :
+    parseFile (fmtSource false w incs ds call) = some (normFile (distribute incs ds call)) :=
+  parseFile_fmtSource_sorted w hws incs ds call hw
+
+/-- **Formatting preserves the program, for every accepted comment-free source in canonical token
+spelling.**  Let the source hold the declarations in any order and the calls of every pipeline in
+any order (`fmtSource true`).  Then (1) the reader accepts it and returns `g`: the distributed
+file with every pipeline's calls where they stand, calls in normal form; (2) the formatter's
+output for it, `fmtFile g`, is the printed form of the distributed file; (3) that output reads as
+the normal form of the distributed file — the same includes, filetypes, structs and stages, the
+same pipelines up to the order of their calls (`normPipeline`), the same call; and (4) formatting
+again changes nothing. -/
+theorem format_preserves_program (w : Nat → Bytes) (hws : ∀ k, (w k).all isSp = true)
+    (incs : List Bytes) (ds : List Decl) (call : Option Call2) (hw : wfSource incs ds call = true) :
+    let g := distribute incs (ds.map readDecl) (call.map normCall2)
+    parseFile (fmtSource true w incs ds call) = some g ∧
+    fmtFile g = fmtFile (distribute incs ds call) ∧
+    parseFile (fmtFile g) = some (normFile (distribute incs ds call)) ∧
+    fmtFile (normFile (distribute incs ds call)) = fmtFile g := by
+  have hwf := wfFile_distribute incs ds call hw
+  have h2 := fmtFile_read incs ds call hw
+  refine ⟨parseFile_fmtSource_raw w hws incs ds call hw, h2, ?_, ?_⟩
+  · rw [h2]; exact parseFile_fmtFile _ hwf
+  · rw [h2]; exact fmtFile_norm _ hwf
+
+/-! ### definitional unfoldings (documentation of the model, not guarantees) -/
+/-- a well-formed source distributes to a well-formed file, and the declarations of a file in
+printing order distribute back to it -/
+theorem distribute_facts (incs : List Bytes) (ds : List Decl) (call : Option Call2) (f : File) :
+    (wfSource incs ds call = true → wfFile (distribute incs ds call) = true) ∧
+    distribute f.includes (declsOf f) f.call = f :=
+  ⟨wfFile_distribute incs ds call, distribute_declsOf f⟩
+
+/-! ### guarantees (continued) -/
+/-- the printed file lexes as `toksFile f`, whatever text follows -/
+theorem lex_format_file (f : File) (rest : Bytes) (hw : wfFile f = true) :
+    lexAll (fmtFile f ++ rest) = (lexAll rest).map (toksFile f ++ ·) :=
+  lexAll_of_lexOK (lexOK_fmtFile f hw) rest
+
+/-- the token-level reader on the tokens of the pieces of a source -/
+theorem read_file (raw : Bool) (incs : List Bytes) (ds : List Decl) (call : Option Call2)
+    (hw : wfSource incs ds call = true) :
+    pFile (toksIncludes incs ++ (toksDecls raw ds ++ toksCallOpt call)) =
+      some (distribute incs (ds.map (readDeclB raw)) (call.map normCall2)) :=
+  pFile_toks raw incs ds call hw
+
+/-! ### definitional unfoldings (documentation of the model, not guarantees) -/
+/-- `@include` is one token when a non-word byte (or the end of the input) follows -/
+theorem lex_include (rest : Bytes) (hr : WordEnd rest) :
+    lexAll (sAtInclude ++ rest) = (lexAll rest).map (Tok.reserved sAtInclude :: ·) :=
+  lexOK_atInclude rest hr
+
+/-! ### guarantees (continued) -/
+/-- ASCII text as bytes (for the examples) -/
+def ascii (s : String) : List UInt8 := s.toList.map fun c => UInt8.ofNat c.toNat
+
+/-- the parts of the example file: `filetype json;`, `filetype tar.gz;`, `struct S(int a "h", …)`,
+`struct T(map<S[]>[] m,)`, the stage `exampleStage` (split, all five resources, retain), the
+pipeline `samplePipeline` (its three calls all move), the call
+`call volatile P(a = 1, * = self,) using (local = true,)` -/
+def sampleDecls : List Decl :=
+  [.struct ⟨[0x53], [⟨⟨[sInt], 0, 0⟩, [0x61], [0x68], []⟩, ⟨⟨[[0x6A, 0x73, 0x6F, 0x6E]], 1, 0⟩, [0x62], [], [0x6F]⟩]⟩,
+   .pipeline samplePipeline,
+   .filetype ⟨[[0x6A, 0x73, 0x6F, 0x6E]]⟩,
+   .stage exampleStage,
+   .struct ⟨[0x54], [⟨⟨[[0x53]], 1, 2⟩, [0x6D], [], []⟩]⟩,
+   .filetype ⟨[[0x74, 0x61, 0x72], [0x67, 0x7A]]⟩]
+
+def sampleCall : Call2 :=
+  ⟨[0x50], [0x50], [⟨[0x61], false, .int 1⟩], some (.ref true [] []),
+    ⟨false, false, true, [(sLocal, .bool true)]⟩⟩
+
+def sampleIncs : List Bytes := [ascii "dir/a.mro"]
+
+def sampleFile : File := distribute sampleIncs sampleDecls (some sampleCall)
+
+/-- non-vacuity: a well-formed file with every kind of part (an include, two filetypes, two
+structs, a split stage with resources and retain, a pipeline whose three calls get reordered, a
+top-level call with a keyword modifier and a `using` block).  Its declarations stand in the
+source in the order struct, pipeline, filetype, stage, struct, filetype, separated by blank
+lines; the reader regroups them (2 filetypes, 2 structs, 2 callables with the pipeline first);
+the source text differs from the formatted text; formatting what was read from the source gives
+`fmtFile sampleFile`; the formatted text reads back as a file that prints to the same text and
+has the tokens of the normal form (the calls of the pipeline are reordered); the blank lines of `Ast.format` are where the Go code puts them
+(the head of the text is shown). -/
+example :
+    wfSource sampleIncs sampleDecls (some sampleCall) = true ∧ wfFile sampleFile = true ∧
+    (sampleFile.filetypes.length, sampleFile.structs.length, sampleFile.callables.length) = (2, 2, 2) ∧
+    (parseFile (fmtSource true (fun _ => [0x0A]) sampleIncs sampleDecls (some sampleCall))).map fmtFile =
+      some (fmtFile sampleFile) ∧
+    fmtSource true (fun _ => [0x0A]) sampleIncs sampleDecls (some sampleCall) ≠ fmtFile sampleFile ∧
+    (parseFile (fmtFile sampleFile)).map (fun g => (fmtFile g, toksFile g)) =
+      some (fmtFile sampleFile, toksFile (normFile sampleFile)) ∧
+    toksDecls true (declsOf sampleFile) ≠ toksDecls false (declsOf sampleFile) ∧
+    (fmtFile sampleFile).take 81 =
+      ascii "@include \"dir/a.mro\"\n\nfiletype json;\nfiletype tar.gz;\n\nstruct S(\n    int    a \"h\"" := by
+  set_option maxRecDepth 100000 in decide +kernel
+
+/-- the blank lines of `Ast.format`, case by case: nothing before the first block whatever it is;
+one blank line between blocks; filetypes on consecutive lines; a blank line between structs and
+between callables; a blank line before the call iff anything precedes it. -/
+example :
+    let ft (n : String) : Filetype := ⟨[ascii n]⟩
+    let st (n : String) : Struct := ⟨ascii n, [⟨⟨[sInt], 0, 0⟩, [0x78], [], []⟩]⟩
+    let pl (n : String) : Callable := .pipeline ⟨ascii n, [], [], ⟨[], ⟨[], none⟩, none⟩⟩
+    let cl : Call2 := ⟨[0x50], [0x50], [], none, noMods⟩
+    fmtFile ⟨[], [ft "a", ft "b"], [], [], none⟩ = ascii "filetype a;\nfiletype b;\n" ∧
+    fmtFile ⟨[ascii "i", ascii "j"], [ft "a"], [], [], none⟩ =
+      ascii "@include \"i\"\n@include \"j\"\n\nfiletype a;\n" ∧
+    fmtFile ⟨[], [], [st "S", st "T"], [], none⟩ = ascii "struct S(\n    int x,\n)\n\nstruct T(\n    int x,\n)\n" ∧
+    fmtFile ⟨[ascii "i"], [], [st "S"], [], none⟩ = ascii "@include \"i\"\n\nstruct S(\n    int x,\n)\n" ∧
+    fmtFile ⟨[], [ft "a"], [st "S"], [], some cl⟩ =
+      ascii "filetype a;\n\nstruct S(\n    int x,\n)\n\ncall P()\n" ∧
+    fmtFile ⟨[], [], [], [pl "P", pl "Q"], some cl⟩ =
+      ascii "pipeline P(\n)\n{\n    return (\n    )\n}\n\npipeline Q(\n)\n{\n    return (\n    )\n}\n\ncall P()\n" ∧
+    fmtFile ⟨[], [ft "a"], [], [pl "P"], none⟩ =
+      ascii "filetype a;\n\npipeline P(\n)\n{\n    return (\n    )\n}\n" ∧
+    fmtFile ⟨[], [], [], [], some cl⟩ = ascii "call P()\n" ∧
+    fmtFile ⟨[ascii "i"], [], [], [], some cl⟩ = ascii "@include \"i\"\n\ncall P()\n" := by
+  set_option maxRecDepth 100000 in decide +kernel
+
+/-- Negative witnesses.  (1) the empty file and a file of white space are rejected (`file` has no
+empty alternative), and the file without parts — which prints as the empty text — is outside
+`wfFile`; (2) so is a file that consists of `@include` lines only (no alternative `includes`
+alone); (3) a file that is only a value expression is not a file although `ParseValExp` reads it
+(the `val_exp` alternative sets `exp`, `yaccParse` then returns an error); (4) declarations after
+the top-level call are rejected, and so is a second call; (5) `@include` after a declaration is
+rejected; (6) `@include` must be followed by a string; `@includex` and a lone `@` are not tokens;
+`@include"a"` (no space) is fine; (7) accepted: a call alone; includes and a call; a declaration
+and a call; `filetype` and `struct` are not reserved: `struct filetype(int struct,)` is a struct. -/
+theorem file_near_misses :
+    parseFile [] = none ∧ parseFile (ascii "\n \n") = none ∧
+    fmtFile ⟨[], [], [], [], none⟩ = [] ∧ wfFile ⟨[], [], [], [], none⟩ = false ∧
+    parseFile (ascii "@include \"a.mro\"\n") = none ∧ wfFile ⟨[ascii "a.mro"], [], [], [], none⟩ = false ∧
+    parseFile (ascii "[1]") = none ∧ (parseValExp (ascii "[1]")).isSome = true ∧
+    parseFile (ascii "1\n") = none ∧ parseFile (ascii "@include \"a\"\n[1]") = none ∧
+    parseFile (ascii "call A()\nfiletype a;\n") = none ∧
+    (parseFile (ascii "filetype a;\ncall A()\n")).isSome = true ∧
+    parseFile (ascii "call A()\ncall B()\n") = none ∧
+    parseFile (ascii "filetype a;\n@include \"a\"\n") = none ∧
+    (parseFile (ascii "@include \"a\"\nfiletype a;\n")).isSome = true ∧
+    parseFile (ascii "@include\nfiletype a;\n") = none ∧
+    parseFile (ascii "@include a\nfiletype a;\n") = none ∧
+    lexAll (ascii "@includex \"a\"\nfiletype a;\n") = none ∧ lexAll (ascii "@ include") = none ∧
+    lexAll (ascii "@include_") = none ∧ lexAll (ascii "@includ") = none ∧
+    lexAll (ascii "@include") = some [.reserved sAtInclude] ∧
+    (parseFile (ascii "@include\"a\"filetype a;")).map (·.includes) = some [ascii "a"] ∧
+    (parseFile (ascii "call A()\n")).isSome = true ∧
+    (parseFile (ascii "@include \"a\"\n@include \"b\"\ncall A()\n")).map (·.includes.length) = some 2 ∧
+    (parseFile (ascii "struct filetype(int struct,)")).map (·.structs) =
+      some [⟨sFiletype, [⟨⟨[sInt], 0, 0⟩, sStruct, [], []⟩]⟩] ∧
+    parseFile (ascii "filetype a\nfiletype b;") = none ∧ parseFile (ascii "filetype;") = none ∧
+    parseFile (ascii "struct S()") = none := by
+  set_option maxRecDepth 100000 in decide +kernel
+
+end WholeFile
+
+/-! ## value expressions: ACCEPTED SOURCE TEXTS
+
+The theorems of section ValueExpressions quantify over expressions satisfying `wf`.  This
+section closes the gap to "every source text the parser accepts": the RANGE of the tokenizer
+(`range_lex`, `numTok_prefix`) and of the reader (`parse_produces_wfRaw`: no hypothesis at all)
+show that whatever `ParseValExp` returns is `wf` — up to exactly the two recorded findings:
+F6b (a string literal with an escape for an invalid UTF-8 byte, `"\xff"`) and F26 (a float
+literal denoting negative zero, `-0.0`), which are GENUINE exceptions of the real code (negative
+witnesses below), so they appear as the hypotheses `strsValid e` and `noNegZero e`.
+
+Model: `Martian.FormatExpText`.  `parseValExp` is the raw reader (float leaves keep the token
+text); Go builds a `float64` and prints it with `strconv.AppendFloat(v, 'g', -1, 64)`.  strconv is
+trusted: `g` stands for `fun t => FormatFloat(ParseFloat(t, 64), 'g', -1, 64)` and only `GOK g` is
+assumed about it; `parseValExpG g` = `Parser.ParseValExp` with the float leaves as Go holds them. -/
+section AcceptedTexts
+open Martian.FormatExp
+
+/-- **Range of the tokenizer.**  For EVERY input the tokenizer accepts, every token it returns is
+in `tokOK`: a NUM_INT text is, on its own, one NUM_INT token whose value `parseInt` accepts (an
+`int64`); a NUM_FLOAT text is, on its own, one NUM_FLOAT token the range check accepts; a
+LITSTRING text is unquoted by `unquoteBytes` without a panic; an `id` text is an identifier
+(`isIdent`: not a reserved word); a punctuation byte is one of the 14. -/
+theorem range_lex (src : List UInt8) (ts : List Tok) (h : lexAll src = some ts) :
+    ∀ tok ∈ ts, tokOK tok = true :=
+  range_lexAll src ts h
+
+/-- **Prefix lemma.**  The numeric token found at the head of ANY text is, run on its own, the
+same token (the regexp rules end at a `\b`; re-run on the match alone they take the same
+branches), so the text kept in a `.float`/`.int` token satisfies `isFloatTok` / is one NUM_INT. -/
+theorem numTok_prefix (b t : List UInt8) :
+    (Martian.Lexer.numTok false b = .float t → isFloatTok t = true) ∧
+    (Martian.Lexer.numTok false b = .int t → Martian.Lexer.numTok false t = .int t) :=
+  ⟨fun h => by simp [isFloatTok, numTok_prefix_float h], fun h => numTok_prefix_int h⟩
+
+/-- non-vacuity: the float token of `1.5.3,` is `1.5`, of `2e5+3` is `2e5`; the int token of
+`007]` is `007` — followed by a byte that is not a terminator of the printer -/
+example :
+    Martian.Lexer.numTok false [0x31, 0x2E, 0x35, 0x2E, 0x33, 0x2C] = .float [0x31, 0x2E, 0x35] ∧
+    Martian.Lexer.numTok false [0x32, 0x65, 0x35, 0x2B, 0x33] = .float [0x32, 0x65, 0x35] ∧
+    Martian.Lexer.numTok false [0x30, 0x30, 0x37, 0x5D] = .int [0x30, 0x30, 0x37] := by decide +kernel
+
+/-- **Range of the reader** (the lemma the round-trip theorems were missing; NO exception
+hypothesis).  For EVERY source text the raw reader accepts, the expression it returns is in
+`wfRaw`: integers fit `int64`; every float leaf is the text of a NUM_FLOAT token; map and struct
+keys are strictly ascending whatever their order and multiplicity in the source (`mkMap`); struct
+keys and reference components are identifiers; references have one of the shapes `X`, `X.a.b`,
+`X.default`, `self.x`, `self.x.a`; and the top level is not a reference (`isVal`). -/
+theorem parse_produces_wfRaw (src : List UInt8) (e : Exp) (h : parseValExp src = some e) :
+    wfRaw e = true ∧ isVal e = true :=
+  parseValExp_range src e h
+
+/-- `GOK` is satisfiable: the identity (a reader that keeps the token text: both clauses hold
+trivially), and the sample `gSample` which does what strconv does on `1e3` (↦ `1000`, a canonical
+integer) and on `-0.0` (↦ `-0`, the third alternative of clause `range`) -/
+theorem gok_instances : GOK id ∧ GOK gSample := ⟨gok_id, gok_gSample⟩
+
+/-- **The parser produces well-formed expressions** — partial: the FULL statement is "for every
+source text `ParseValExp` accepts, the expression it returns satisfies `wf`" (then
+`parse_format_exp` and `format_exp_idem` apply to every accepted text).  The full statement is
+FALSE for the code as it is; the two hypotheses `hs`, `hz` are exactly the recorded findings:
+F6b (`strsValid`: `"\xff"` is accepted and denotes a string that is not valid UTF-8; the printer
+rewrites the byte to U+FFFD — `invalid_byte_not_preserved`, `accepted_text_invalid_utf8` below)
+and F26 (`noNegZero`: `-0.0` is accepted, printed `-0`, read back as the integer 0 —
+`negative_zero_not_wf`, `accepted_text_negative_zero` below).  Everything else the parser can
+return is covered: `g` is any canonicaliser with `GOK g` (what is trusted about strconv). -/
+theorem parse_produces_wf_partial (g : List UInt8 → List UInt8) (hg : GOK g) (src : List UInt8) (e : Exp)
+    (h : parseValExpG g src = some e) (hs : strsValid e = true) (hz : noNegZero e = true) :
+    wf e = true ∧ isVal e = true := by
+  obtain ⟨e0, h0, rfl⟩ := parseValExpG_inv h
+  have ⟨hr, hv0⟩ := parseValExp_range src e0 h0
+  exact ⟨wf_canon g hg e0 hr hs hz, by rw [isVal_canon]; exact hv0⟩
+
+/-- **Formatting preserves every accepted text** — partial in the same sense (hypotheses `hs`, `hz`
+= findings F6b, F26; without them the statement is FALSE for the code as it is, see the two
+negative witnesses below).  For every source text the parser accepts (any spacing, comments, key
+order, duplicate keys, leading zeros, trailing commas, escapes): the formatter's output is
+accepted; it denotes the same expression up to `norm` (an integral float prints without
+`.`/`e` and reads back as an int; `norm` changes nothing else in an expression that was read); the
+output is a fixed point of the formatter; and formatting the re-read expression is accepted again
+with the same result. -/
+theorem format_preserves_accepted_exp_partial (g : List UInt8 → List UInt8) (hg : GOK g)
+    (src : List UInt8) (e : Exp) (h : parseValExpG g src = some e) (hs : strsValid e = true)
+    (hz : noNegZero e = true) :
+    parseValExpG g (fmt [] e) = some (norm e) ∧ fmt [] (norm e) = fmt [] e ∧
+      parseValExpG g (fmt [] (norm e)) = some (norm e) := by
+  obtain ⟨e0, h0, rfl⟩ := parseValExpG_inv h
+  have ⟨hr, hv0⟩ := parseValExp_range src e0 h0
+  have hw := wf_canon g hg e0 hr hs hz
+  have hv : isVal (canon g e0) = true := by rw [isVal_canon]; exact hv0
+  have hfix := canon_norm_fixed g hg e0 hr hw
+  have h1 : parseValExpG g (fmt [] (canon g e0)) = some (norm (canon g e0)) := by
+    simp only [parseValExpG, parse_format_exp _ hw hv, Option.map_some, hfix]
+  refine ⟨h1, fmt_norm _ [] hw, ?_⟩
+  rw [fmt_norm _ [] hw]
+  exact h1
+
+/-- a source text with non-canonical spacing, unsorted and duplicate keys (`"b"`, `"a"` twice: the
+later entry wins), a comment, leading zeros (`007` is the int 7), a float with exponent (`1e3`,
+which Go holds as 1000), escapes, nested empty collections, a struct literal with unsorted fields
+and references, trailing commas -/
+def sampleText : List UInt8 :=
+  ascii "{ \"b\" : 007 ,\"a\":[ ],  # c\n \"b\": [1e3, {}, [[]], -12,\"\\t\\u0041\"], \"a\": 2.5, \"\": {x:{},aa : self.p.q , b:[ X.default,Y.o ]}, }"
+
+/-- non-vacuity: the hypotheses of the two theorems hold for `sampleText` (with `g = gSample`, and
+with `g = id`), and the formatted text is the canonical one -/
+example :
+    (parseValExpG gSample sampleText).map (fun e => (strsValid e, noNegZero e)) = some (true, true) ∧
+    (parseValExpG id sampleText).map (fun e => (strsValid e, noNegZero e)) = some (true, true) ∧
+    (parseValExpG gSample sampleText).map (fmt []) = some (ascii
+      "{\n    \"\": {\n        aa: self.p.q,\n        b: [\n            X.default,\n            Y.o,\n        ],\n        x:  {},\n    },\n    \"a\": 2.5,\n    \"b\": [\n        1000,\n        {},\n        [[]],\n        -12,\n        \"\\tA\",\n    ],\n}") := by
+  set_option maxRecDepth 100000 in decide +kernel
+
+/-- Negative witness F6b on an ACCEPTED TEXT: `"\xff"` is accepted, the string it denotes is the
+single byte FF (`strsValid` fails); the printer writes `"\ufffd"`, which reads back as U+FFFD —
+another string.  So "format preserves every accepted text" is false without `strsValid`. -/
+theorem accepted_text_invalid_utf8 :
+    (match parseValExp (ascii "\"\\xff\"") with
+      | some (.str s) => s == [0xFF] && !strsValid (.str s) && fmt [] (.str s) == ascii "\"\\ufffd\""
+      | _ => false) = true ∧
+    (match parseValExp (ascii "\"\\ufffd\"") with
+      | some (.str s) => s == [0xEF, 0xBF, 0xBD]
+      | _ => false) = true := by
+  set_option maxRecDepth 100000 in decide +kernel
+
+/-- Negative witness F26 on an ACCEPTED TEXT: `-0.0` is accepted; Go holds the float negative
+zero, which prints as `-0` (`noNegZero` fails); `-0` is accepted and is the INTEGER 0, which prints
+as `0`: the formatter's output is not a fixed point and does not denote the same expression.  So
+the statement is false without `noNegZero`. -/
+theorem accepted_text_negative_zero :
+    (match parseValExpG gSample (ascii "-0.0") with
+      | some (.float t) => t == sNegZero && !noNegZero (.float t) && fmt [] (.float t) == ascii "-0"
+      | _ => false) = true ∧
+    (match parseValExpG gSample (ascii "-0") with
+      | some (.int i) => i == 0 && fmt [] (.int i) == ascii "0"
+      | _ => false) = true := by
+  set_option maxRecDepth 100000 in decide +kernel
+
+end AcceptedTexts
 
 end Props.C09
